@@ -718,6 +718,100 @@ func runC16(c *h.Ctx) {
 		}},
 		{"verify tokens", func() { iss1.Verify(t1a); iss5.Verify(t5a[0]) }},
 	}
+	// ---- object reuse: an encoding returned by Marshal keeps its contents when the SAME object decodes another message
+	// and is marshalled again (every ordered pair of message sizes: the new encoding may or may not fit the old storage)
+	type reusable interface {
+		Marshal() []byte
+		Unmarshal([]byte) bool
+	}
+	var reuse []struct {
+		name string
+		mk   func() reusable
+		encs [][]byte
+	}
+	{
+		var e1, e2, e3, e5, eb [][]byte
+		for n := 1; n <= 4; n++ {
+			a1, _ := type1.NewBasicPrivateClient().CreateTokenRequest(chal, rnd(c, 32), kid1, iss1.TokenKey())
+			e1 = append(e1, a1.Request().Marshal())
+			a2, _ := type2.NewBasicPublicClient().CreateTokenRequest(chal, rnd(c, 32), iss2.TokenKeyID(), iss2.TokenKey())
+			e2 = append(e2, a2.Request().Marshal())
+			a3, _ := env.request(client3, chal, rnd(c, 32), rnd(c, 48), "origin.example")
+			e3 = append(e3, a3.Request().Marshal())
+			var ns [][]byte
+			for j := 0; j < n; j++ {
+				ns = append(ns, rnd(c, 32))
+			}
+			a5, _ := type5.NewBatchedPrivateClient().CreateTokenRequest(chal, ns, iss5.TokenKeyID(), iss5.TokenKey())
+			e5 = append(e5, a5.Request().Marshal())
+			var rs []tokens.TokenRequestWithDetails
+			for j := 0; j < n; j++ {
+				rs = append(rs, a1.Request())
+			}
+			ab, _ := batched.BatchedClient{}.CreateTokenRequest(rs)
+			eb = append(eb, ab.Marshal())
+		}
+		reuse = append(reuse, struct {
+			name string
+			mk   func() reusable
+			encs [][]byte
+		}{"type1 request", func() reusable { return new(type1.BasicPrivateTokenRequest) }, e1},
+			struct {
+				name string
+				mk   func() reusable
+				encs [][]byte
+			}{"type2 request", func() reusable { return new(type2.BasicPublicTokenRequest) }, e2},
+			struct {
+				name string
+				mk   func() reusable
+				encs [][]byte
+			}{"type3 request", func() reusable { return new(type3.RateLimitedTokenRequest) }, e3},
+			struct {
+				name string
+				mk   func() reusable
+				encs [][]byte
+			}{"type5 request", func() reusable { return new(type5.BatchedPrivateTokenRequest) }, e5},
+			struct {
+				name string
+				mk   func() reusable
+				encs [][]byte
+			}{"batch request", func() reusable { return new(batched.BatchedTokenRequest) }, eb})
+	}
+	for _, ru := range reuse {
+		for ia, a := range ru.encs {
+			for ib, b := range ru.encs {
+				o := ru.mk()
+				var first, second []byte
+				var ok1, ok2 bool
+				pan, msg := h.Protect(func() {
+					ok1 = o.Unmarshal(append([]byte{}, a...))
+					first = o.Marshal()
+				})
+				snap := append([]byte{}, first...)
+				pan2, msg2 := h.Protect(func() {
+					ok2 = o.Unmarshal(append([]byte{}, b...))
+					second = o.Marshal()
+					o.Unmarshal([]byte{0xff}) // a refused message in between
+					o.Marshal()
+				})
+				c.Count("reuse:"+ru.name, 1, fmt.Sprint(ru.name, ia, ib))
+				det := map[string]any{"object": ru.name, "first_message": ia, "second_message": ib, "first_len": len(a), "second_len": len(b)}
+				if pan || pan2 {
+					det["panic"] = msg + msg2
+					c.Violation("decoding into a used object panics", det)
+					continue
+				}
+				if !ok1 || !ok2 {
+					c.Violation("an honest encoding is refused by its decoder", det)
+					continue
+				}
+				if !bytes.Equal(first, snap) {
+					c.Violation("values handed out earlier keep their contents: an encoding returned by Marshal changed when the object decoded another message and was marshalled again", det)
+				}
+				_ = second
+			}
+		}
+	}
 	for _, l := range later {
 		pan, msg := h.Protect(l.f)
 		if pan {
